@@ -17,7 +17,7 @@ func vSameBytes(a, b []byte) bool {
 
 func vh_Conv() {
 	ids := []string{"", "n1", "nœud-2", "节点3"}
-	kind := vChoose("kind", 6)
+	kind := vChoose("kind", 7)
 	vTagInt("kind", kind)
 	switch kind {
 	case 0:
@@ -60,6 +60,26 @@ func vh_Conv() {
 		y := makeInstallSnapshotRequest(makeProtoInstallSnapshotRequest(x))
 		vAssert(vAnd(vAnd(y.LeaderID == x.LeaderID, y.Term == x.Term), vAnd(vAnd(y.LastIncludedIndex == x.LastIncludedIndex, y.LastIncludedTerm == x.LastIncludedTerm), vAnd(y.Offset == x.Offset, y.Done == x.Done))), "C19.install-snapshot-request-roundtrip")
 		vAssert(vAnd(vSameBytes(x.Configuration, y.Configuration), vSameBytes(x.Bytes, y.Bytes)), "C19.install-snapshot-request-payload-roundtrip")
+	case 6:
+		// the configuration codec used by the bundled transport (over the opaque protobuf codec)
+		c := Configuration{Index: vNondetU64("cfg.index"), Members: map[string]string{"n1": "addr-1"}, IsVoter: map[string]bool{"n1": vNondetBool("cfg.v1")}}
+		if vNondetBool("cfg.m2") {
+			c.Members["nœud-2"] = "addr-2"
+			c.IsVoter["nœud-2"] = vNondetBool("cfg.v2")
+		}
+		data, err := encodeConfiguration(&c)
+		vAssert(err == nil, "C19.configuration-encodes")
+		d, err := decodeConfiguration(data)
+		vAssert(err == nil, "C19.configuration-decodes")
+		vAssert(vAnd(d.Index == c.Index, vAnd(len(d.Members) == len(c.Members), len(d.IsVoter) == len(c.IsVoter))), "C09|C19.configuration-roundtrip")
+		for id, addr := range c.Members {
+			vAssert(vAnd(d.Members[id] == addr, d.IsVoter[id] == c.IsVoter[id]), "C09|C19.configuration-roundtrip")
+		}
+		cl := c.Clone()
+		vAssert(vAnd(cl.Index == c.Index, len(cl.Members) == len(c.Members)), "C09|C19.configuration-clone")
+		for id, addr := range c.Members {
+			vAssert(vAnd(cl.Members[id] == addr, cl.IsVoter[id] == c.IsVoter[id]), "C09|C19.configuration-clone")
+		}
 	case 5:
 		x := InstallSnapshotResponse{Term: vNondetU64("term"), BytesWritten: vNondetI64("bw")}
 		y := makeInstallSnapshotResponse(makeProtoInstallSnapshotResponse(x))
